@@ -761,9 +761,10 @@ def jobs_for(prop, tier, seed):
         DEEP_K = 2
         for key in T:
             idxs = [i for i, j in enumerate(jobs) if isinstance(j.get('bound'), dict) and j['bound'] == T[key] and 'scn' in j]
-            if len(idxs) <= DEEP_K:
+            K = 1 if 'inject' in T[key] else DEEP_K      # cancel x two preemptions is the costliest class
+            if len(idxs) <= K:
                 continue
-            keep = {idxs[(i * len(idxs)) // DEEP_K] for i in range(DEEP_K)}
+            keep = {idxs[(i * len(idxs)) // K] for i in range(K)}
             for i in idxs:
                 if i not in keep:
                     jobs[i] = dict(jobs[i], bound=dict(Q[key]))
@@ -777,7 +778,7 @@ def jobs_for(prop, tier, seed):
             if sc is None or sc.get('mode') == 'inline' or len(sc.get('transfers', ())) != 1 or j.get('forced_cost', 1) == 0:
                 continue
             b = j['bound'] if isinstance(j['bound'], dict) else {'sched': j['bound']}
-            if b.get('sched', 0) < 1 or b.get('env', 0) > 1:
+            if b.get('sched', 0) < 1 or b.get('env', 0) > 1 or b.get('inject'):
                 continue
             ff.append(dict(j, name=j['name'] + ' [forced switches free]', forced_cost=0,
                            bound=dict(b, sched=0 if b.get('inject') else 1), max_execs=200000))
